@@ -9,8 +9,11 @@
 (*  MSpec   mutants of valid frames (byte replaced / inserted / deleted,       *)
 (*          length fields replaced by negative, huge, malformed texts, deep    *)
 (*          nesting): one Probe script each.                                   *)
-(*  CSpec   commands with CR / LF / CRLF-bearing text in every argument        *)
-(*          position: one Cmd script each (C22).                               *)
+(*  BigSpec nesting far beyond any limit (Big scripts, bytes not logged).       *)
+(*  CSpec   C22: commands / queries with CR, LF, CRLF-bearing text in every     *)
+(*          syntactic position (Cmd scripts, several commands on one store)     *)
+(*  WSpec   C22: Sweep scripts - the text inserted at EVERY byte offset of an   *)
+(*          argument (expanded by the harness, re-enumerated by the trace spec) *)
 EXTENDS Resp, TLC, Json
 
 CONSTANTS Alpha,     \* the alphabet, a sequence of bytes
@@ -18,13 +21,18 @@ CONSTANTS Alpha,     \* the alphabet, a sequence of bytes
           P,         \* prefix length of the Exhaust scripts
           NMax       \* Exhaust scripts cover lengths up to NMax
 
+\* * $ + - : _ 0 1 2 9 a CR LF   (cfg: Alpha <- Alpha13)
+Alpha13 == <<42, 36, 43, 45, 58, 95, 48, 49, 50, 57, 97, 13, 10>>
+Alpha12 == <<42, 36, 43, 45, 58, 95, 48, 49, 57, 97, 13, 10>>
+
 VARIABLE cur
 A == Len(Alpha)
 ABytes == {Alpha[i] : i \in 1..A}
 
-Init == cur = <<>>
-Next == Len(cur) < N /\ \E a \in ABytes : cur' = Append(cur, a)
-Spec == Init /\ [][Next]_cur
+pvars == <<wire, buf, sent, decoded, out, st, cur>>      \* the connection variables of Resp stay idle here
+Init == RInit /\ cur = <<>>
+Next == Len(cur) < N /\ (\E a \in ABytes : cur' = Append(cur, a)) /\ UNCHANGED rvars
+Spec == Init /\ [][Next]_pvars
 
 Pre(b, n) == SubSeq(b, 1, n)
 \* the lemmas that make stream decoding well defined
@@ -94,12 +102,71 @@ NestMutants == {Nest(d, leaf) : d \in {1, 2, 7, 8, 9, 10, 16, 31, 32, 33, 40}, l
 
 Mutants == UNION {ByteMutants(b) \cup LenMutants(b) : b \in SeedBytes} \cup NestMutants
 
-MInit == cur \in Mutants
-MSpec == MInit /\ [][FALSE]_cur
+MInit == RInit /\ cur \in Mutants
+MSpec == MInit /\ [][FALSE]_pvars
 EmitProbe == PrintT(<<"SCRIPT", ToJson(<<[op |-> "Probe", bytes |-> cur]>>)>>)
 
 \* decoders that refuse big or deep frames do so without being fed: Big scripts (no bytes in the trace)
 BigInit == cur \in {<<d>> : d \in {41, 64, 127, 128, 129, 200, 1000, 20000, 200000, 600000}}
-BigSpec == BigInit /\ [][FALSE]_cur
+BigSpec == RInit /\ BigInit /\ [][FALSE]_pvars
 EmitBig == \A leaf \in {0, 1} : PrintT(<<"SCRIPT", ToJson(<<[op |-> "Big", kind |-> "nest", d |-> cur[1], leaf |-> leaf]>>)>>)
+
+\* ---------------------------------------------------------------- C22: commands
+\* Command arguments are TLA+ strings here (TLC cannot look inside them and does not have to: the
+\* property is about the reply bytes); the harness logs the bytes it actually sent.
+Evil == {"\r\n", "\r", "\n", "x\r\ny", "\r\n+OK", "\r\n\r\n", "\n\r", "a\nb", "a\rb", "\r\n$-1\r\n"}
+Q(pre, e, post) == pre \o e \o post
+\* query texts with the text e in one syntactic position each
+Queries(e) == {
+    e, Q("RETURN 1", e, ""), Q("", e, "RETURN 1"), Q("RETURN", e, "1"),
+    Q("RETURN '", e, "'"), Q("RETURN \"", e, "\""), Q("RETURN '", e, ""), Q("RETURN 'a' + '", e, "' + 1"),
+    Q("RETURN 1 AS `", e, "`"), Q("RETURN `", e, "`"), Q("RETURN x", e, ""), Q("RETURN $", e, ""), Q("RETURN $`", e, "`"),
+    Q("RETURN nosuch", e, "(1)"), Q("RETURN nosuch('", e, "')"), Q("RETURN toInteger('", e, "')"),
+    Q("RETURN date('", e, "')"), Q("RETURN datetime('", e, "')"), Q("RETURN duration('", e, "')"),
+    Q("RETURN time('", e, "')"), Q("RETURN localtime('", e, "')"), Q("RETURN localdatetime('", e, "')"),
+    Q("RETURN toBoolean('", e, "')"), Q("RETURN toFloat('", e, "')"), Q("MATCH (n) WHERE n.p =~ '[", e, "' RETURN n"),
+    Q("RETURN 1 +", e, ""), Q("RETURN [1,", e, "]"), Q("RETURN {`", e, "`: 1}"), Q("RETURN {a: '", e, "'}"),
+    Q("RETURN 1/0 AS `", e, "`"), Q("RETURN substring('", e, "', 99, -1)"), Q("RETURN 'a' =~ '(", e, "'"),
+    Q("MATCH (n:`", e, "`) RETURN n"), Q("MATCH (n) WHERE n.p = '", e, "' RETURN n"), Q("MATCH (n) RETURN n.`", e, "`"),
+    Q("MATCH (n)-[:`", e, "`]->(m) RETURN m"), Q("MATCH (n) RETURN m", e, ""), Q("MATCH (n", e, ""),
+    Q("CALL ", e, "()"), Q("CALL nosuch.proc('", e, "')"), Q("CALL algo.pageRank('", e, "', 'x') YIELD node RETURN node"),
+    Q("CALL db.`", e, "`()"), Q("UNWIND ['", e, "'] AS x RETURN x"), Q("UNWIND '", e, "' AS x RETURN x"),
+    Q("CREATE INDEX ON :`", e, "`(p)"), Q("CREATE INDEX ON :L(`", e, "`)"), Q("DROP INDEX ON :L(`", e, "`)"),
+    Q("CREATE CONSTRAINT ON (n:`", e, "`) ASSERT n.p IS UNIQUE"), Q("EXPLAIN ", e, ""), Q("PROFILE MATCH (n:`", e, "`) RETURN n"),
+    Q("EXPLAIN MATCH (n) WHERE n.p = '", e, "' RETURN n"), Q("FOO ", e, ""), Q("MATCH (n) SET n.p = ", e, ""),
+    Q("MATCH (n) DELETE ", e, ""), Q("MERGE (n:`", e, "` {p: 1}) RETURN n"), Q("RETURN 1 ORDER BY `", e, "`"),
+    Q("RETURN 1 LIMIT '", e, "'"), Q("LOAD CSV FROM '", e, "' AS r RETURN r"), Q("MATCH p = shortestPath((a)-[*]-(b:`", e, "`)) RETURN p")
+}
+C(args) == [op |-> "Cmd", args |-> args]
+GQ(q) == C(<<"GRAPH.QUERY", "default", q>>)
+CmdScripts ==
+    UNION {
+        {<<C(<<e>>)>>, <<C(<<e, "x">>)>>, <<C(<<"PING", e>>)>>, <<C(<<"ECHO", e>>)>>, <<C(<<"ECHO">>), C(<<"INFO", e>>)>>,
+         <<C(<<"GRAPH.QUERY", e, "RETURN 1">>)>>, <<C(<<"GRAPH.RO_QUERY", e, "RETURN 1">>)>>, <<C(<<"GRAPH.QUERY", "default" \o e, "RETURN 1">>)>>,
+         <<C(<<"GRAPH.QUERY", e>>), C(<<"GRAPH.QUERY">>)>>, <<C(<<"GRAPH.LIST", e>>), C(<<"GRAPH.DELETE", e>>)>>,
+         <<C(<<"graph.config", "GET", e>>)>>, <<C(<<"GRAPH.QUERY" \o e, "default", "RETURN 1">>)>>}
+        \cup {<<GQ(q)>> : q \in Queries(e)}
+        \cup {<<C(<<"GRAPH.RO_QUERY", "default", q>>)>> : q \in {Q("RETURN '", e, "'"), Q("RETURN x", e, "")}}
+        \* stored data: the text as property value, property key, label, relationship type, then read back / fail on it
+        \cup {<<GQ(Q("CREATE (n:L {p: '", e, "', q: 1})")), GQ("MATCH (n:L) RETURN n.p, n"), GQ("MATCH (n:L) RETURN n.p + 1"),
+                 GQ("MATCH (n:L) RETURN toInteger(n.p), date(n.p)"), GQ("MATCH (n:L) RETURN properties(n), keys(n), labels(n)"),
+                 GQ("CREATE INDEX ON :L(p)"), GQ(Q("MATCH (n:L) WHERE n.p = '", e, "' RETURN n.p")),
+                 GQ("CREATE CONSTRAINT ON (n:L) ASSERT n.p IS UNIQUE"), GQ(Q("CREATE (n:L {p: '", e, "'})")),
+                 GQ("MATCH (n:L) RETURN n.p AS v ORDER BY v"), GQ("MATCH (n:L) RETURN collect(n.p), count(n)")>>,
+               <<GQ("CREATE (n:`" \o e \o "` {`k" \o e \o "`: 2})-[:`" \o e \o "`]->(m) RETURN n, m"), GQ("MATCH (n)-[r]->(m) RETURN labels(n), type(r), keys(n), r"),
+                 GQ("MATCH (n) RETURN properties(n)"), GQ("MATCH (n:`" \o e \o "`) RETURN n.`k" \o e \o "`"), C(<<"GRAPH.DELETE", "default">>),
+                 GQ("MATCH (n) RETURN count(n)")>>}
+        : e \in Evil}
+    \cup {<<C(<<"PING">>), C(<<"ECHO", "a">>), C(<<"INFO">>), C(<<"GRAPH.LIST">>), GQ("RETURN 1"), GQ("MATCH (n) RETURN n"), C(<<>>)>>}
+
+SweepTexts == {"MATCH (n:L) WHERE n.p = 'v' RETURN n.p AS `c`", "CREATE (n:L {p: 'v'})-[:R]->(m:`M`) RETURN n",
+               "RETURN nosuch('a') + $p", "CALL db.labels() YIELD label RETURN label"}
+SweepScripts ==
+    {<<[op |-> "Sweep", args |-> <<"GRAPH.QUERY", "default", q>>, arg |-> 3, evil |-> e]>> : q \in SweepTexts, e \in {"\r\n", "\n", "\r"}}
+    \cup {<<[op |-> "Sweep", args |-> <<"GRAPH.QUERY", "default", "RETURN 1">>, arg |-> k, evil |-> e]>> : k \in 1..2, e \in {"\r\n", "\n"}}
+    \cup {<<[op |-> "Sweep", args |-> <<"ECHO", "hello">>, arg |-> k, evil |-> "\r\n"]>> : k \in 1..2}
+
+CSpec == RInit /\ cur \in CmdScripts /\ [][FALSE]_pvars
+WSpec == RInit /\ cur \in SweepScripts /\ [][FALSE]_pvars
+EmitCur == PrintT(<<"SCRIPT", ToJson(cur)>>)
 =============================================================================
